@@ -1051,7 +1051,7 @@ def _char_tested_against(b, cl, value):
 
 
 def r108(facts, res):
-    """Inside a /* */ comment the scanner looks at the character AFTER the current one, to see whether it is the `/` that
+    """Inside a /* */ comment the scanner looks at what FOLLOWS the current character, to see whether it is the `/` that
     closes the comment.  That look-ahead may be reached only from the arm that has just seen `*`: reached from any other arm
     (a line break that falls through to the same test), `<that character>/` closes the comment too and the rest of the
     comment is parsed as grammar text."""
@@ -1062,7 +1062,10 @@ def r108(facts, res):
         if not (b.impl_of or '').startswith(P) or b.kind == 'closure':
             continue
         loops = b.loops()
-        # fetches: block of Chars::next -> the char local it yields (through unwrap)
+        if not loops:
+            continue
+        defs = b.defs()
+        # (block, char local) of character fetches; (block) of `starts_with('/')` tests
         fetched = {}
         for bb, t in b.calls_named('next'):
             if 'Chars' not in ((callee_of(t).get('self_ty') or '') + (cpath(t) or '')):
@@ -1070,40 +1073,69 @@ def r108(facts, res):
             for ub, ut in b.calls(lambda x: cname(x) in ('unwrap', 'expect')):
                 if ut['args'] and b.op_root(ut['args'][0], through=())[0] == t['dest']['l']:
                     fetched[bb] = ut['dest']['l']
+        slash_tests = [fb for fb, cl in fetched.items() if _char_tested_against(b, cl, 47)]
+        for bb, t in b.calls_named('starts_with'):
+            if len(t['args']) > 1:
+                k = op_const(t['args'][1])
+                if k is None:
+                    r_ = b.op_root(t['args'][1], through=())[0]
+                    for d in defs.get(r_, []) if r_ is not None else []:
+                        if d[1] == 'stmt' and 'use' in d[2]:
+                            k = op_const(d[2]['use']) or k
+                if k and ((k.get('ty') == 'char' and k.get('int') == 47) or k.get('str') == '/'):
+                    slash_tests.append(bb)
+        if not slash_tests:
+            continue
+        # edges taken only after seeing '*'
+        stars = []
         for sb in sorted(b.reachable()):
             t = b.term(sb)
-            if not (t['k'] == 'switch' and t.get('on_ty') == 'char' and any(v == 42 for v, _ in t['targets'])):
+            if t['k'] != 'switch':
                 continue
+            if t.get('on_ty') == 'char':
+                tg = {x for v, x in t['targets'] if v == 42}
+                for x in tg:
+                    if x != t['otherwise'] and all(v == 42 for v, y in t['targets'] if y == x):
+                        stars.append((sb, x))
+            elif t.get('on_ty') == 'bool':
+                ol = op_local(t['on'])
+                for d in defs.get(ol, []) if ol is not None else []:
+                    if d[1] == 'stmt' and d[2].get('bin') in ('Eq', 'Ne'):
+                        for x, y in ((d[2]['a'], d[2]['b']), (d[2]['b'], d[2]['a'])):
+                            k = op_const(y)
+                            if k and k.get('ty') == 'char' and k.get('int') == 42:
+                                z = [tb for v, tb in t['targets'] if v == 0]
+                                tgt = t['otherwise'] if d[2]['bin'] == 'Eq' else (z[0] if z else None)
+                                if tgt is not None:
+                                    stars.append((sb, tgt))
+        for sb, tgt in stars:
             inl = [h for h in loops if sb in loops[h]]
             if not inl:
                 continue
             h = min(inl, key=lambda x: len(loops[x]))
-            L = loops[h]
-            # a later fetch in the same iteration whose character is tested against '/'
-            for fb, cl in sorted(fetched.items()):
-                if fb not in L or not _char_tested_against(b, cl, 47):
-                    continue
-                if fb not in b.reachable(starts=b.succs(sb), avoid={h}):
+            for fb in sorted(set(slash_tests)):
+                if fb not in loops[h] or fb not in b.reachable(starts=b.succs(sb), avoid={h}):
                     continue
                 n += 1
-                edges = {}
-                for v, tgt in t['targets']:
-                    edges.setdefault(tgt, []).append(v)
-                edges.setdefault(t['otherwise'], []).append(None)
-                wrong = []
-                for tgt, vals in edges.items():
-                    if tgt == h:
-                        continue
-                    if fb in b.reachable(starts=(tgt,), avoid={h}) or tgt == fb:
-                        wrong += [v for v in vals if v != 42]
                 key = '%s/star-slash@L%d' % (b.name, n - 1)
-                if wrong:
+                if b.dominates(tgt, fb) or tgt == fb:
+                    res.ok(R, key, loc_of(b, sb), 'the closing `/` is looked for only after a `*`')
+                else:
+                    # which other characters get there?
+                    t = b.term(sb)
+                    other = []
+                    if t.get('on_ty') == 'char':
+                        edges = {}
+                        for v, x in t['targets']:
+                            edges.setdefault(x, []).append(v)
+                        edges.setdefault(t['otherwise'], []).append(None)
+                        for x, vals in edges.items():
+                            if x != tgt and x != h and (x == fb or fb in b.reachable(starts=(x,), avoid={h})):
+                                other += vals
                     def show(v):
                         return 'any other character' if v is None else repr(chr(v))
-                    res.bad(R, key, loc_of(b, sb), 'the test "is the next character the `/` that closes the comment" (line %s) is also reached after %s: '
-                            'that character followed by `/` ends the comment' % (b.blocks[fb]['term'].get('line'), ', '.join(show(v) for v in wrong)))
-                else:
-                    res.ok(R, key, loc_of(b, sb), 'the closing `/` is looked for only after a `*`')
+                    res.bad(R, key, loc_of(b, sb), 'the test "does the `/` that closes the comment follow" (line %s) is also reached without having seen `*`%s: '
+                            'that character followed by `/` ends the comment' % (b.blocks[fb]['term'].get('line'), (' (after %s)' % ', '.join(show(v) for v in other)) if other else ''))
     res.floor(R, 'block-comment terminators', n, 1)
 
 
